@@ -127,6 +127,80 @@ def gen_case(rng):
         clean=clean, dup=dup, t_head=np.asarray(tt[:5]), rv_head=rvv[:5])
 
 
+_TSDIR = []
+
+
+def check_timeseries(ctx, rng, RVData, d, kw, desc, cls, ops):
+    import os
+    import tempfile
+    import warnings
+    import astropy.units as u
+    from astropy.time import Time
+    from astropy.timeseries import TimeSeries
+    if not _TSDIR:
+        _TSDIR.append(tempfile.mkdtemp(prefix="c15ts"))
+    fn = os.path.join(_TSDIR[0], "ts.hdf5")
+    own = bool(rng.random() < 0.4) or not isinstance(kw["t"], Time) or desc["nonfinite"] != "none"
+    if own:
+        ts = d.to_timeseries()
+        exp_t = np.asarray(d._t_bmjd)
+        exp_rv = d.rv
+        exp_err = d.rv_err
+        exp_ref = d._t_ref_bmjd if d.t_ref is not None else None    # "no reference epoch" is not promised to survive
+    else:
+        # the caller's own TimeSeries, in the caller's scale and order
+        ts = TimeSeries(time=kw["t"], data={"rv": kw["rv"], "rv_err": kw["rv_err"]})
+        tb = kw["t"].tcb.mjd
+        order = np.argsort(tb, kind="stable")
+        exp_t = tb[order]
+        exp_rv = kw["rv"][order]
+        exp_err = kw["rv_err"][order]
+        with_ref = bool(rng.random() < 0.5)
+        if with_ref:
+            ref = Time(float(tb.min()) - float(rng.uniform(0, 30)), format="mjd", scale="tcb")
+            ref = getattr(ref, str(rng.choice(["tcb", "utc", "tdb"])))
+            ts.meta["t_ref"] = ref
+            exp_ref = ref.tcb.mjd
+        else:
+            exp_ref = float(tb.min())
+    with warnings.catch_warnings():
+        warnings.simplefilter("ignore")
+        ts.write(fn, path="ts", serialize_meta=True, overwrite=True)
+        d2 = RVData.from_timeseries(fn, path="ts")
+    ctx.evaluations += 1
+    op = "timeseries-own" if own else "timeseries-user"
+    ops.append(op)
+    c = dict(desc, op=op)
+    if len(d2) != len(exp_t):
+        ctx.violation("timeseries-length", "from_timeseries holds %d observations, the TimeSeries has %d" % (len(d2), len(exp_t)), c)
+        return
+    dt = float(np.max(np.abs(np.asarray(d2._t_bmjd) - exp_t)))
+    dt2 = float(np.max(np.abs(d2.t.tcb.mjd - exp_t)))
+    if max(dt, dt2) > 2e-9:
+        ctx.violation("timeseries-times-wrong", "epochs read back from a %s TimeSeries differ from its BMJD by %.3g s"
+                      % (getattr(ts.time, "scale", "?"), max(dt, dt2) * 86400), c)
+    same_t = len(np.unique(exp_t)) < len(exp_t)
+    rv2 = d2.rv.to_value(exp_rv.unit)
+    er2 = d2.rv_err.to_value(exp_err.unit)
+    if same_t:
+        # tied epochs may come back in either order: compare as multisets of (t, rv, err) triples
+        a = sorted(zip(np.asarray(d2._t_bmjd).round(6), rv2.round(9), er2.round(9)))
+        b = sorted(zip(exp_t.round(6), np.asarray(exp_rv.value, float).round(9), np.asarray(exp_err.value, float).round(9)))
+        okp = np.allclose(a, b, rtol=1e-6, atol=1e-9)
+    else:
+        okp = (np.allclose(rv2, np.asarray(exp_rv.value, float), rtol=1e-6, atol=0)
+               and np.allclose(er2, np.asarray(exp_err.value, float), rtol=1e-6, atol=0))
+    if not okp:
+        ctx.violation("timeseries-pairing-broken", "velocities / uncertainties read back from the TimeSeries are not "
+                      "those of the same epochs", c)
+    if exp_ref is None:
+        return
+    dref = max(abs(d2._t_ref_bmjd - exp_ref), abs(d2.t_ref.tcb.mjd - exp_ref)) if d2.t_ref is not None else None
+    if dref is None or dref > 2e-9:
+        ctx.violation("timeseries-t_ref-wrong", "reference epoch after from_timeseries is off by %r d (expected BMJD %.9f)"
+                      % (dref, exp_ref), c)
+
+
 def run(ctx):
     M.install_rvdata()
     from thejoker.data import RVData
@@ -173,6 +247,13 @@ def run(ctx):
                     ops.append("slice%d" % kind)
             except Exception as e:
                 ctx.violation("copy-or-slice-raises", "%r" % (e,), desc)
+        # the other constructor: RVData.from_timeseries on (a) the object's own to_timeseries() and (b) a TimeSeries the
+        # user made from the raw arrays in their own time scale - the stored epochs must still be the BMJD of those times
+        if finite_all and len(d) > 0 and not d._has_cov and not cls[9] and rng.random() < 0.3:
+            try:
+                check_timeseries(ctx, rng, RVData, d, kw, desc, cls, ops)
+            except Exception as e:
+                ctx.exception(e, "to_timeseries / from_timeseries on a valid object", desc)
         # a multi-step history on one object: ivar read, uncertainties scaled (the package's own tests do `data.rv *= 1.5`),
         # ivar read again - it must be the reciprocal variance of the *current* uncertainties
         if finite_all and len(d) > 0 and rng.random() < 0.5:
